@@ -275,10 +275,34 @@ impl Engine for C07 {
             }
         }
         // the target
+        let mut target_forced: Option<usize> = None;
         let tframe = match r.below(10) {
             0 | 1 if HAVE_REFERENCE => {
                 let d = r.pick(&all_dicts).clone();
-                FrameSpec::Reference(gen_ref_spec(&mut r, 8 * 1024, Some(d), true))
+                let mut spec = gen_ref_spec(&mut r, 8 * 1024, Some(d.clone()), true);
+                // half of the frames of a *registered* dictionary are decoded with that dictionary forced after the
+                // init (most of those without a Dictionary_ID in the header: forcing is the only way to decode them),
+                // and half of these directly after a completed frame that named the same dictionary
+                if let Some(i) = dicts.iter().position(|x| *x == d) {
+                    if r.chance(1, 2) {
+                        target_forced = Some(i);
+                        if r.chance(3, 4) {
+                            spec.dict_id = false;
+                        }
+                        if r.chance(1, 2) {
+                            let mut prev = gen_ref_spec(&mut r, 4 * 1024, Some(d.clone()), true);
+                            prev.dict_id = true;
+                            let pf = FrameSpec::Reference(prev);
+                            if let Ok(f) = get_frame(&pf) {
+                                let mut program = gen_program(&mut r, &f, true, false);
+                                program.finisher = true;
+                                let forced_too = if r.chance(1, 3) { program.front = FrontEnd::Reader; Some(i) } else { None };
+                                history.push(Episode { frame: pf, faults: vec![], program, force_dict: forced_too });
+                            }
+                        }
+                    }
+                }
+                FrameSpec::Reference(spec)
             }
             2..=4 => {
                 // synthetic frames exercise repeat offsets / RLE tables in the very first sequence
@@ -311,7 +335,10 @@ impl Engine for C07 {
                 if r.chance(1, 8) {
                     program.source.eof_at = Some(r.usize_below(f.bytes.len().max(1)) as u64);
                 }
-                Episode { frame: tframe, faults, program, force_dict: None }
+                if target_forced.is_some() {
+                    program.front = FrontEnd::Reader;
+                }
+                Episode { frame: tframe, faults, program, force_dict: target_forced }
             }
             Err(_) => Episode { frame: tframe, faults: vec![], program: Program { front: FrontEnd::Reader, ops: vec![], source: SourceScript::plain(), finisher: true, explicit_init: true, target: 0, prefix: 0 }, force_dict: None },
         };
@@ -371,6 +398,9 @@ impl Engine for C07 {
         d.u64(t_fresh.digest());
         let target_outcome = if t_fresh.first_error.is_some() || t_fresh.panic.is_some() { "fails" } else { "decodes" };
         stats.inc(&format!("target.{target_outcome}_on_fresh"));
+        if plan.target.force_dict.is_some() {
+            stats.inc("target.dictionary_forced_after_init");
+        }
         if !plan.target.faults.is_empty() {
             stats.inc("target.corrupted");
         }
@@ -455,6 +485,7 @@ impl Engine for C07 {
             "history.failed",
             "history.failed_in_reset",
             "history.force_dict",
+            "target.dictionary_forced_after_init",
             "fault.stored_bytes_in_history",
             "fault.source_eof_in_history",
             "fault.source_error_in_history",
